@@ -376,11 +376,15 @@ def rule_dp4(ctx: Ctx) -> RuleResult:
                     node=b.node, extra="boundary-op"))
             unchanged = any((b.test[1] == "NotEq" and not b.outcome) or (b.test[1] == "Eq" and b.outcome) for b in btests)
             stored_new = bool(writes) and writes[-1].extra[0] == new
-            r.ob(stored_new or (unchanged and not writes), lambda: mk_finding(
+            # the next item is compared with THIS item's predicate value: it is stored on every path.  A value that merely compared equal
+            # to it (the one kept since the segment was opened) is not the same thing when == is not transitive on the predicate values
+            r.ob(stored_new, lambda: mk_finding(
                 "DP-4", spec, kind, cfg, p,
-                "after this item the stored predicate is not the predicate of the item (stored: %s): the next boundary is computed "
-                "against a stale value" % (show(writes[-1].extra[0]) if writes else "left unchanged although the predicate differs or was never compared"),
-                extra="stored"))
+                "after this item the stored predicate is not the predicate of the item (%s): the next item is not compared with this one but with %s" % (
+                    "stored: %s" % show(writes[-1].extra[0]) if writes else "nothing is stored on this path",
+                    "a stale value" if writes or not unchanged else "the first item of the segment -- a different answer as soon as != is not transitive on the "
+                    "predicate values (tolerance classes: 0, 1, 2, 3 with 'at most 1 apart' is cut into [0, 1] [2, 3])"),
+                extra="stored" if writes or not unchanged else "stored-previous"))
             # order of child events
             evs = [m for m in mux_emissions(p, roles=("down",)) if m.event is not None]
             kinds = [m.event.kind for m in evs]
